@@ -287,6 +287,60 @@ func mutateJSON(r *rng.R, doc []byte) [][]byte {
 	return out
 }
 
+var injectedChildRe = regexp.MustCompile(` ?\(S 5505025 \(S 5505026 \(I 5505027 1\)\) \([A-Z] [0-9]+ [^()]*\)\)`)
+
+var (
+	xmlCloseRe = regexp.MustCompile(`</[A-Za-z][A-Za-z0-9_]*>\s*`)
+	xmlLeafRe  = regexp.MustCompile(`^<[A-Za-z][A-Za-z0-9_]*( [a-z]+="[^"]*")*/>`)
+)
+
+// smuggleXML inserts, at the end of some structure, an UNKNOWN structure element whose nested content ends with a
+// copy of the element that follows the structure. A decoder that respects structure extents ignores the unknown
+// element entirely, so the decoded value must not change.
+func smuggleXML(r *rng.R, doc []byte) [][]byte {
+	var out [][]byte
+	locs := xmlCloseRe.FindAllIndex(doc, -1)
+	for k := 0; k < 6 && len(locs) > 0; k++ {
+		l := rng.Pick(r, locs)
+		follow := xmlLeafRe.Find(doc[l[1]:])
+		if follow == nil {
+			continue
+		}
+		inj := `<TTLV tag="0x540001"><TTLV tag="0x540002"><TTLV tag="0x540003" type="Integer" value="1"/></TTLV>` + string(follow) + `</TTLV>`
+		m := append([]byte{}, doc[:l[0]]...)
+		m = append(m, inj...)
+		m = append(m, doc[l[0]:]...)
+		out = append(out, m)
+	}
+	return out
+}
+
+// textSmuggleCase: metamorphic C02 oracle for XML structure extents.
+func textSmuggleCase(ctx *Ctx, tg planTarget, doc, injected []byte) {
+	line := fmt.Sprintf("#text.dec xml %d %s", tg.dyn, hexUp(injected))
+	s := getSchema()
+	dec := func(b []byte) string {
+		v := reflect.New(tg.ty.Elem())
+		err, p := guard("UnmarshalXML", func() error { return ttlv.UnmarshalXML(b, v.Interface()) })
+		if p != "" {
+			return "panic"
+		}
+		if err != nil {
+			return "err"
+		}
+		r, _ := s.Render(v, s.Dyns[tg.dyn].Kind)
+		return "ok " + r
+	}
+	want, got := dec(doc), dec(injected)
+	// inside generically decoded (opaque) content the injected element is legitimately kept as a child: drop it
+	got = injectedChildRe.ReplaceAllString(got, "")
+	if want != got {
+		ctx.Res.Violate(report.Violation{Property: "C02", Oracle: "structure-extent", Key: "xml:nested-content-leaks-into-parent", Detail: "an unknown nested structure changes the decoded value: " + firstDiff(want, got), Line: line})
+	}
+	ctx.Add(line, strings.SplitN(got, " ", 2)[0], true, "")
+	ctx.Res.Count("text.smuggle." + strings.SplitN(got, " ", 2)[0])
+}
+
 func init() {
 	register(&Engine{
 		Name: "text",
@@ -349,6 +403,11 @@ func runText(ctx *Ctx) {
 				}
 				for _, m := range muts {
 					textDecodeCase(ctx, c, tg, m, "mutated")
+				}
+				if c.name == "xml" {
+					for _, m := range smuggleXML(r, doc) {
+						textSmuggleCase(ctx, tg, doc, m)
+					}
 				}
 			}
 		}
